@@ -330,3 +330,8 @@ func (db *DB) VerifRewriteManifest() error {
 	defer db.manifest.appendLock.Unlock()
 	return db.manifest.rewrite()
 }
+
+// VerifL0StallMs returns for how many milliseconds flushes have been stalled on a full level 0 so far.
+func (db *DB) VerifL0StallMs() int64 {
+	return db.lc.l0stallsMs.Load() / int64(time.Millisecond)
+}
